@@ -5,13 +5,18 @@
 //! `klippa::subset_font` (Colr::subset with every paint format, Cpal::subset, ItemVariationStore /
 //! DeltaSetIndexMap subsetting in variations.rs, the Serializer's object sharing and link resolution).
 //! Model: `lean/FontVerif/Model/SubsetColr.lean`, `SubsetCpal.lean`, `SubsetColrSer.lean`; commands
-//! `c17.colr`, `c17.cpal`, `c17.colrplan`, `c17.palmap`, `c17.cpal.read`.
+//! `c17.colr`, `c17.cpal`, `c17.colrplan`, `c17.palmap`, `c17.cpal.read`, `c17.colr.tree`, `c17.colr.expect`.
 //!
 //! correspondence (byte for byte): the whole emitted COLR table and the whole emitted CPAL table of a
 //! `subset_font` run against the model fed with the ORIGINAL table bytes and the plan fields the
 //! subsetters read (through `verif_hooks::plan_view` / `plan_colr_view`); the plan's index maps against
 //! the model fed with the closure sets computed by read-fonts (`Colr::v1_closure` ...).
 //! `dropped` = subset_font Ok without the table, `fail` = Err(SubsetTableError(tag)), `trap` = panic.
+//! Reader models: `cpal-reader` (the model's `color` / palette types / labels / entry labels = read-fonts on
+//! original and subset CPAL), `colr-tree-reader` (the model's paint tree of a base glyph / layer = the tree
+//! read-fonts resolves, original table), `colr-tree-expect` (the tree the theorems promise — `expectTree` on
+//! the ORIGINAL table + plan — = the tree read-fonts resolves in the REAL subset table at the new glyph id /
+//! new layer index).
 //!
 //! oracles (real code only, subset re-opened with read-fonts / skrifa):
 //!   colr-paint-events-preserved   the callback stream of `skrifa::color::ColorGlyph::paint` for every kept
@@ -2014,6 +2019,17 @@ fn run_special(s: &mut Session, r: &mut Rng, th: bool) {
         let data = syn_font("syn:cpal-overlap-257x256", 5, Some(colr_bytes(&c)), Some(cpal_bytes(&cpal)), 0);
         for q in [Req { gids: vec![2], unicodes: vec![], flags: 0 }, Req { gids: vec![3], unicodes: vec![], flags: 0 }] {
             run_request(s, "syn:cpal-overlap-257x256", &data, &q, Trust::WellFormed, true, false);
+        }
+    }
+    // (i) version 0 records with layers but a null layerRecordsOffset (malformed; panicked before fix 2ad446b)
+    {
+        let mut c = ColrSpec::default();
+        c.v0 = vec![(2, vec![(1, 0)]), (3, vec![(1, 1), (4, 0)])];
+        let mut t = colr_bytes(&c);
+        set32(&mut t, 8, 0);
+        let data = syn_font("syn:colr-v0-null-layers", 6, Some(t), Some(cpal_bytes(&one_palette(2))), 0);
+        for q in all_requests(6, &[2, 3]) {
+            run_request(s, "syn:colr-v0-null-layers", &data, &q, Trust::Hostile, true, false);
         }
     }
     // (h) more than 65535 used COLRv1 layers (oracle only: the model is not built for lists of this size)
